@@ -21,6 +21,7 @@ use std::panic::{catch_unwind, AssertUnwindSafe};
 use std::time::Instant;
 
 mod c11;
+mod shifted;
 
 #[global_allocator]
 static GLOBAL: arena::Arena = arena::Arena;
@@ -39,7 +40,16 @@ pub fn base_alphabet() -> Vec<Op> {
         // used by the explicit extra bases only (`extra_bases`); `bases` enumerates the first NBASE_OPS operations
         Remove(Tgt::Mid),
         MutQ(0),
+        // tables that lack the first registry component(s) but hold two later ones (C11's extra bases)
+        Insert { mask: 12, rev: false },
+        Insert { mask: 14, rev: true },
     ]
+}
+
+/// Serialization bases beyond the enumerated ones: tables whose identifier has absent components before present ones
+/// (O,B / Z,O,B), alone and next to a table that starts with the first component.
+pub fn extra_ser_bases() -> Vec<Vec<u8>> {
+    vec![vec![10], vec![11, 11], vec![10, 0]]
 }
 
 pub const NBASE_OPS: u8 = 8;
@@ -1058,6 +1068,16 @@ fn main() {
     let seed: i64 = std::env::var("VERIF_SEED").ok().and_then(|s| s.parse().ok()).unwrap_or(0);
     if let Some(p) = replay {
         let text = std::fs::read_to_string(&p).unwrap();
+        if text.contains("fault-c11-shifted") {
+            // {"case": "world=W human=H k=Some(K)"}: one execution of src/shifted.rs, no explorer
+            let j: serde_json::Value = serde_json::from_str(&text).unwrap();
+            let case = j["case"].as_str().unwrap_or("").to_string();
+            let get = |name: &str| case.split_whitespace().find_map(|w| w.strip_prefix(name)).unwrap_or("").to_string();
+            let k: u64 = get("k=").trim_start_matches("Some(").trim_end_matches(')').parse().unwrap_or(0);
+            util::install_crash_handler();
+            let rc = shifted::worker(Some((get("world=").parse().unwrap_or(0), get("human=") == "true", k)));
+            std::process::exit(rc);
+        }
         if text.contains("fault-c11") {
             std::process::exit(c11::replay(&p));
         }
@@ -1065,6 +1085,7 @@ fn main() {
     }
     let rc = match mode.as_str() {
         "c17-worker" => worker_c17(&tier, shard.0, shard.1, resume),
+        "c11-shifted" => shifted::worker(std::env::var("SHIFTED_ONLY").ok().and_then(|v| { let p: Vec<&str> = v.split(',').collect(); Some((p.first()?.parse().ok()?, *p.get(1)? == "true", p.get(2)?.parse().ok()?)) })),
         "c11-worker" => c11::worker_c11(&tier, shard.0, shard.1, resume.map(|r| r.0)),
         "c17" => main_c17(&tier, threads, evidence.as_deref(), &replay_dir, seed, if prop == "C11" { "C17" } else { &prop }),
         _ => c11::main_c11(&tier, threads, evidence.as_deref(), &replay_dir, seed, &prop),
